@@ -1572,14 +1572,21 @@ func (r *Raft) takeSnapshot() {
 	if err := r.fsm.Snapshot(snapshot); err != nil {
 		r.logger.Fatalf("failed to take snapshot of state machine: error = %v", err)
 	}
-	if err := snapshot.Close(); err != nil {
-		r.logger.Fatalf("failed to close snapshot file: error = %v", err)
-	}
 	r.mu.Lock()
 
 	// It's possible a snapshot was installed and the log was compacted while the lock was released.
+	// This snapshot is then out of date and must not become the most recent one.
 	if lastAppliedEntry.Index <= r.lastIncludedIndex {
+		if err := snapshot.Discard(); err != nil {
+			r.logger.Fatalf("failed to discard snapshot file: error = %v", err)
+		}
 		return
+	}
+
+	// The snapshot only becomes visible while the lock is held so that it cannot
+	// get in between the steps of a snapshot installation.
+	if err := snapshot.Close(); err != nil {
+		r.logger.Fatalf("failed to close snapshot file: error = %v", err)
 	}
 
 	// Compact the log.
